@@ -4,6 +4,7 @@ package c06
 
 import (
 	"fmt"
+	"strings"
 
 	"github.com/lugu/qiloop/bus"
 	"github.com/lugu/qiloop/bus/net"
@@ -448,7 +449,95 @@ func afterLogin() {
 	vrt.Observe("kind=%s typ=%d", payloadNames[kind], typ)
 }
 
+// derivedPairs: pairs that are NOT the accepted pair (U, T) but resemble it in
+// a way a derived key could confuse: every other split of U+sep+T for common
+// separators (a cache keyed by user+sep+token), swapped halves, case variants,
+// strict prefixes / extensions, the pair of another account.
+func derivedPairs(U, T, U2, T2 string) [][2]string {
+	seen := map[[2]string]bool{{U, T}: true, {U2, T2}: true}
+	var out [][2]string
+	add := func(u, t string) {
+		k := [2]string{u, t}
+		if !seen[k] {
+			seen[k] = true
+			out = append(out, k)
+		}
+	}
+	for _, sep := range []string{"", ":", "/", " ", "|", "\x00", ",", ";", "=", "@", "\n", "-", "."} {
+		for _, ut := range [][2]string{{U, T}, {U2, T2}} {
+			joined := ut[0] + sep + ut[1]
+			for i := 0; i+len(sep) <= len(joined); i++ {
+				if joined[i:i+len(sep)] == sep {
+					add(joined[:i], joined[i+len(sep):])
+				}
+			}
+		}
+	}
+	add(T, U)
+	add(U, T2)
+	add(U2, T)
+	add(strings.ToUpper(U), T)
+	add(U, strings.ToUpper(T))
+	add(U[:len(U)-1], T)
+	add(U, T[:len(T)-1])
+	add(U+"x", T)
+	add(U, T+"x")
+	add(U, "")
+	add("", T)
+	return out
+}
+
+// derivedAfterLogin: two accounts exist; connection A logs in with the first
+// one (and, in half of the cases, a third connection with the second one);
+// connection B then presents a pair derived from the accepted ones.
+func derivedAfterLogin() {
+	const U, T, U2, T2 = "ops:adm", "s3:cr/et", "ops", "adm:s3:cr/et x"
+	w := fx.Start(bus.Dictionary(map[string]string{U: T, U2: T2}))
+	a, b, c := w.RawPeer(), w.RawPeer(), w.RawPeer()
+	a.StartDrain()
+	b.StartDrain()
+	c.StartDrain()
+	pairs := derivedPairs(U, T, U2, T2)
+	pr := pairs[vrt.ChooseFree(len(pairs), "derived pair")]
+	both := vrt.ChooseFree(2, "second account logged in too") == 1
+	vrt.Explore()
+	if !a.Authenticate(U, T) {
+		vrt.Failf("good-credentials-refused/dictionary", "the accepted pair was refused")
+		return
+	}
+	if both && !c.Authenticate(U2, T2) {
+		vrt.Failf("good-credentials-refused/dictionary", "the accepted pair of the second account was refused")
+		return
+	}
+	b.Send(net.Call, 0, 0, 8, b.NextID(), fx.CapPayload(bus.ClientCap(pr[0], pr[1])))
+	vrt.Quiesce()
+	id := b.NextID()
+	b.Send(net.Call, 1, 1, 100, id, fx.Int32(9))
+	vrt.Quiesce()
+	if w.Root.Total() > 0 {
+		vrt.Failf("other-connection-authenticated/derived-pair", "accounts (%q,%q) and (%q,%q) logged in elsewhere; connection B presented (%q,%q), which the authenticator does not accept, and reached the service: %v", U, T, U2, T2, pr[0], pr[1], w.Root.Order)
+	}
+	for _, r := range b.Replies(id) {
+		if r.Hdr.Type == net.Reply {
+			vrt.Failf("reply-from-service-unauthenticated/derived-pair", "connection B got a success reply after presenting (%q,%q)", pr[0], pr[1])
+		}
+	}
+	if !b.EOF {
+		vrt.Failf("unauthenticated-connection-not-closed/derived-pair", "connection B is still open after calling a service having presented only (%q,%q)", pr[0], pr[1])
+	}
+	ida := a.NextID()
+	a.Send(net.Call, 1, 1, 100, ida, fx.Int32(4))
+	vrt.Quiesce()
+	if rs := a.Replies(ida); len(rs) != 1 || rs[0].Hdr.Type != net.Reply {
+		vrt.Failf("authenticated-connection-refused/derived-pair", "connection A, which is authenticated, cannot call the service any more")
+	}
+	fx.Settle()
+	vrt.Observe("pair=%q both=%v", pr, both)
+}
+
 func init() {
+	reg.Register(&reg.Scenario{Property: "C06", Name: "derived-credentials-after-a-login", Body: derivedAfterLogin, Quick: 0, Thorough: 1,
+		Doc: "two accounts whose names and tokens contain separators; after one or both logged in on other connections, connection B presents a pair derived from the accepted ones (every re-split of user+sep+token over 13 separators, swapped halves, case variants, prefixes, extensions, the token of the other account) and calls a service: refused and closed"})
 	reg.Register(&reg.Scenario{Property: "C06", Name: "second-connection-after-a-login", Body: afterLogin, Quick: 0, Thorough: 1,
 		Doc: "connection A authenticates with the accepted pair; connection B then presents one of 13 other payloads (nothing, half of the pair, forged states, near misses with blanks) as Call / Post / Capability and calls a service: refused and closed"})
 	reg.Register(&reg.Scenario{Property: "C06", Name: "slow-authenticator", Body: slowAuthenticator, Quick: 1, Thorough: 2,
